@@ -104,7 +104,7 @@ def audit_sources():
     return problems
 
 
-def ensure_coq(prop):
+def ensure_coq(prop, tier="quick"):
     """build Props/<prop>.vo (and deps) with make; return dict(ok, obligations, discharged, axioms, log)"""
     res = {"ok": False, "obligations": 0, "discharged": 0, "axioms": [], "log": "", "theorems": []}
     with Lock("coq"):
@@ -146,6 +146,16 @@ def ensure_coq(prop):
         # every theorem must be closed unless its axioms are allow-listed
         res["ok"] = res["ok"] and (closed + len(re.findall(r"Axioms:", out)) == n_pa)
     res["log"] = out[-2000:]
+    if tier == "thorough" and res["ok"]:
+        # independent re-check of the compiled property file and everything it depends on
+        rc2, out2 = sh(["coqchk", "-silent", "-o", "-Q", ".", "LsmV", f"LsmV.Props.{prop}"], cwd=COQ, timeout=3000)
+        res["coqchk"] = out2[-1500:]
+        ax = re.search(r"\* Axioms:\s*(.*?)(?:\n\s*\*|\Z)", out2, re.S)
+        axtxt = ax.group(1).strip() if ax else "?"
+        res["coqchk_axioms"] = axtxt
+        if rc2 != 0 or "<none>" not in axtxt:
+            res["ok"] = False
+            res["log"] = "coqchk failed or reports axioms:\n" + out2[-2000:]
     return res
 
 
@@ -957,6 +967,7 @@ def finish(prop, tier, seed, spec, all_results, gen_errs, coq, workdir, t0, extr
             "trusted_base": TRUSTED_BASE + spec.get("tb_extra", []),
             "theorems": coq.get("theorems", []),
             "axioms_reported": coq.get("axioms", []),
+            "coqchk_axioms": coq.get("coqchk_axioms", "not run in this tier (thorough only)"),
             "evaluations": evaluations if evaluations is not None else len(all_results),
             "distinct_nontrivial": nontrivial_override if nontrivial_override is not None else nontrivial,
             "rule": spec["rule"] if "rule" in spec else "histories generated from one PRNG seed per history (profiles %s, %d ops each) plus the corpus; distinct = distinct history text; non-trivial = at least one flush, one table-rewriting compaction and one point read answered from a table (plus the property's own condition)" % ([p for p, _, _ in spec["profiles"]], spec["n_ops"]),
@@ -1007,7 +1018,7 @@ def run_check(prop, tier, seed, replay, count_override):
         print("STAT", stat)
         rel = [f for f in fails if PROPS[prop]["relevant"](f)]
         return 1 if rel else 0
-    coq = ensure_coq(prop)
+    coq = ensure_coq(prop, tier)
     eng = PROPS[prop]["engine"]
     if eng == "tree":
         return tree_engine(prop, tier, seed, count_override, coq)
